@@ -2,9 +2,9 @@
 # Build the whole Coq development from files on disk (offline). Full .vo build, never -vos.
 set -e
 cd "$(dirname "$(readlink -f "$0")")"
-export PYTHONPATH=/repo/src:/verif/harness PYTHONHASHSEED=0 PYTHONDONTWRITEBYTECODE=1
+mkdir -p build replays evidence
+export PYTHONPATH=/repo/src:$PWD/harness PYTHONHASHSEED=0 PYTHONDONTWRITEBYTECODE=1
 /venv/bin/python harness/tables.py
-cd coq
-coq_makefile -f _CoqProject -o Makefile > /dev/null
-timeout 3000 make -j16 > ../build/setup.log 2>&1 || { tail -40 ../build/setup.log; exit 1; }
+/venv/bin/python harness/framework.py      # writes coq/_CoqProject from the files present + coq_makefile
+timeout 3000 make -C coq -j16 > build/setup.log 2>&1 || { tail -40 build/setup.log; exit 1; }
 echo "setup ok"
